@@ -33,6 +33,13 @@ type compiler struct {
 	program *ast.Program
 	curStmt ast.Statement
 	inCheck bool
+	writing []writtenSlice // the arrays being written at the moment, outermost first
+}
+
+// writtenSlice identifies an array by its storage.
+type writtenSlice struct {
+	data uintptr
+	len  int
 }
 
 func (c *compiler) compile() (string, error) {
@@ -107,6 +114,19 @@ func (c *compiler) write(bb *strings.Builder, i interface{}) {
 			c.write(bb, ii)
 		}
 	case []interface{}:
+		if len(t) > 0 {
+			// an array can be made to contain itself (a[0] = a): it is written once
+			ws := writtenSlice{reflect.ValueOf(t).Pointer(), len(t)}
+			for _, w := range c.writing {
+				if w == ws {
+					return
+				}
+			}
+
+			c.writing = append(c.writing, ws)
+			defer func() { c.writing = c.writing[:len(c.writing)-1] }()
+		}
+
 		for _, ii := range t {
 			c.write(bb, ii)
 		}
